@@ -4,8 +4,17 @@ Theorems about `Iox2.Shutdown` (the publish-subscribe world plus the node handle
 handle as droppable objects, and the function `resources` = what exists in the file system /
 shared-memory namespace, validated against the real ipc service after every drop of every
 permutation of drop orders).
+
+All theorems are proved as stated.  They rest on `reach_pubsub` (a shutdown history projects to a
+publish-subscribe history), the C02 invariant `Iox2.PubSub.C02P.Inv` (`reach_inv`) and one additional
+invariant over `PubSub.Reach`, `Iox2.PubSub.C17P.XInv` (`Iox2/Proof/ShutdownC17View.lean`,
+`reach_xinv` in `Iox2/Proof/ShutdownC17XInv.lean`): port ids are unique in `pubs`/`subs`, and a port
+core exists (`ex`) only while its port object is alive or it has loans / held samples.
+`cfg.Sane` is not needed by any proof.
 -/
 import Iox2.Model.Shutdown
+import Iox2.Proof.ShutdownC17XInv
+import Iox2.Proof.ShutdownC17Examples
 namespace Iox2.Shutdown.C17
 open Iox2.PubSub Iox2.Shutdown
 
@@ -27,30 +36,47 @@ def count (k : String) (r : List (String × Nat)) : Nat :=
 /-- no drop panics, whatever else is still alive -/
 theorem drop_never_panics (cfg : Cfg) (ipc : Bool) (s : SWorld) (h : Reach cfg ipc s) (hp : s.w.panicked = false)
     (op : SOp) (hd : IsDrop op) : (step s op).1.w.panicked = false := by
-  sorry
+  rcases C17P.step_w s op with h1 | ⟨o, ho, h1⟩
+  · rw [h1]; exact hp
+  · rw [h1, C17P.psdrop_panicked]
+    · exact hp
+    · subst ho
+      cases o with
+      | dpub p => exact Or.inl ⟨p, rfl⟩
+      | dsub s => exact Or.inr (Or.inl ⟨s, rfl⟩)
+      | dloan p l => exact Or.inr (Or.inr (Or.inl ⟨p, l, rfl⟩))
+      | dsample s k => exact Or.inr (Or.inr (Or.inr ⟨s, k, rfl⟩))
+      | _ => exact False.elim hd
 
 /-- once every object is dropped — in whatever order, with whatever happened in between — nothing of
 what the application created remains, except possibly the node's (empty) directory -/
 theorem all_dropped_nothing_left_partial (cfg : Cfg) (hc : cfg.Sane) (ipc : Bool) (s : SWorld) (h : Reach cfg ipc s)
     (hp : s.w.panicked = false) (hall : AllDropped s) :
     resources s = (if s.ipc && s.nodeDirLeft then [("nodedir", 1)] else []) := by
-  sorry
+  have hr := C17P.reach_pubsub h
+  obtain ⟨h1, h2, h3⟩ := C17P.all_dropped_empty (Iox2.PubSub.C02P.reach_inv hr)
+    (Iox2.PubSub.C17P.reach_xinv hr) hall
+  obtain ⟨hn, hs, _, _⟩ := hall
+  have hpc : portCores s.w = 0 := by unfold portCores; omega
+  unfold resources
+  cases hipc : s.ipc <;> cases hnd : s.nodeDirLeft <;>
+    simp [nodeCore, svcCore, hn, hs, hpc, h1, h3]
 
 /-- … and the directory is left only when the object that released the last reference to the node was a
 port-side object (port, loan or sample): if the node handle or the service handle is dropped last, nothing
 at all remains -/
 theorem node_dir_left_only_by_port (cfg : Cfg) (ipc : Bool) (s : SWorld) (h : Reach cfg ipc s) (op : SOp)
     (hn : s.nodeDirLeft = false) (hl : (step s op).1.nodeDirLeft = true) :
-    (∃ o, op = .ps o) ∧ nodeCore s = true ∧ nodeCore (step s op).1 = false ∧ s.node = false ∧ s.svc = false := by
-  sorry
+    (∃ o, op = .ps o) ∧ nodeCore s = true ∧ nodeCore (step s op).1 = false ∧ s.node = false ∧ s.svc = false :=
+  C17P.dirleft_only_by_port s op hn hl
 
 /-- FALSE AS A FULL STATEMENT (finding D22): "nothing remains" — concrete history after which every
 object is dropped and the node's directory is still there -/
 theorem all_dropped_nothing_left_refuted :
     ∃ (cfg : Cfg) (ops : List SOp), cfg.Sane ∧
       let s := run (SWorld.init cfg true) ops
-      AllDropped s ∧ s.w.panicked = false ∧ resources s ≠ [] := by
-  sorry
+      AllDropped s ∧ s.w.panicked = false ∧ resources s ≠ [] :=
+  C17P.all_dropped_refuted
 
 /-- objects that are still alive keep what they need: while a publisher port (or one of its loans)
 exists, its data segment, its port tag, the service's files and the node's files all exist — even
@@ -60,32 +86,85 @@ theorem live_publisher_keeps_resources (cfg : Cfg) (hc : cfg.Sane) (s : SWorld) 
     let r := resources s
     1 ≤ count "data" r ∧ 1 ≤ count "port_tag" r ∧ count "service" r = 1 ∧ count "dynamic" r = 1 ∧
     count "service_tag" r = 1 ∧ count "node_monitor" r = 1 ∧ count "details" r = 1 ∧ count "nodedir" r = 1 := by
-  sorry
+  have hr := C17P.reach_pubsub h
+  have hi := Iox2.PubSub.C02P.reach_inv hr
+  have hex := C17P.ex_of_live_pub hi hP hl
+  obtain ⟨h1, h2⟩ := C17P.portCores_pos_of_pub hP hex
+  have hipc := C17P.reach_ipc h
+  have hsc : svcCore s = true := by simp [svcCore]; right; omega
+  have hnc : nodeCore s = true := by simp [nodeCore, hsc]
+  have key : ∀ k v, (C17P.resAll s).find? (·.1 = k) = some (k, v) → v ≠ 0 →
+      count k (resources s) = v := by
+    intro k v hf hv
+    rw [C17P.resources_eq s hipc]
+    unfold count
+    rw [C17P.find_filter_nonzero hf hv]
+  simp only
+  refine ⟨?_, ?_, ?_, ?_, ?_, ?_, ?_, ?_⟩
+  · rw [key "data" (s.w.pubs.filter (·.2.ex)).length (by simp [C17P.resAll]) (by omega)]; exact h1
+  · rw [key "port_tag" (portCores s.w) (by simp [C17P.resAll]) (by omega)]; exact h2
+  · exact key "service" 1 (by simp [C17P.resAll, hsc]) (by omega)
+  · exact key "dynamic" 1 (by simp [C17P.resAll, hsc]) (by omega)
+  · exact key "service_tag" 1 (by simp [C17P.resAll, hsc]) (by omega)
+  · exact key "node_monitor" 1 (by simp [C17P.resAll, hnc]) (by omega)
+  · exact key "details" 1 (by simp [C17P.resAll, hnc]) (by omega)
+  · exact key "nodedir" 1 (by simp [C17P.resAll, hnc]) (by omega)
 
 theorem live_subscriber_keeps_resources (cfg : Cfg) (hc : cfg.Sane) (s : SWorld) (h : Reach cfg true s)
     (hp : s.w.panicked = false) (sb : Nat) (S : Sub) (hS : getS s.w sb = some S) (hl : S.alive = true ∨ S.held ≠ []) :
     let r := resources s
     1 ≤ count "port_tag" r ∧ count "service" r = 1 ∧ count "dynamic" r = 1 ∧
     count "service_tag" r = 1 ∧ count "node_monitor" r = 1 ∧ count "details" r = 1 ∧ count "nodedir" r = 1 := by
-  sorry
+  have hr := C17P.reach_pubsub h
+  have hi := Iox2.PubSub.C02P.reach_inv hr
+  have hex := C17P.ex_of_live_sub hi hS hl
+  have h2 := C17P.portCores_pos_of_sub hS hex
+  have hipc := C17P.reach_ipc h
+  have hsc : svcCore s = true := by simp [svcCore]; right; omega
+  have hnc : nodeCore s = true := by simp [nodeCore, hsc]
+  have key : ∀ k v, (C17P.resAll s).find? (·.1 = k) = some (k, v) → v ≠ 0 →
+      count k (resources s) = v := by
+    intro k v hf hv
+    rw [C17P.resources_eq s hipc]
+    unfold count
+    rw [C17P.find_filter_nonzero hf hv]
+  simp only
+  refine ⟨?_, ?_, ?_, ?_, ?_, ?_, ?_⟩
+  · rw [key "port_tag" (portCores s.w) (by simp [C17P.resAll]) (by omega)]; exact h2
+  · exact key "service" 1 (by simp [C17P.resAll, hsc]) (by omega)
+  · exact key "dynamic" 1 (by simp [C17P.resAll, hsc]) (by omega)
+  · exact key "service_tag" 1 (by simp [C17P.resAll, hsc]) (by omega)
+  · exact key "node_monitor" 1 (by simp [C17P.resAll, hnc]) (by omega)
+  · exact key "details" 1 (by simp [C17P.resAll, hnc]) (by omega)
+  · exact key "nodedir" 1 (by simp [C17P.resAll, hnc]) (by omega)
 
 /-- resource accounting is exact: one port tag per port core, one data segment per publisher core, one
 connection object per connection that still has a side attached; and a connection never outlives both
 of its ports -/
 theorem connections_have_a_port (cfg : Cfg) (hc : cfg.Sane) (ipc : Bool) (s : SWorld) (h : Reach cfg ipc s)
     (hp : s.w.panicked = false) (cn : Conn) (hcn : cn ∈ s.w.conns) :
-    (∃ P, getP s.w cn.pid = some P ∧ P.ex = true) ∨ (∃ S, getS s.w cn.sid = some S ∧ S.ex = true) := by
-  sorry
+    (∃ P, getP s.w cn.pid = some P ∧ P.ex = true) ∨ (∃ S, getS s.w cn.sid = some S ∧ S.ex = true) :=
+  C17P.conn_has_port (Iox2.PubSub.C02P.reach_inv (C17P.reach_pubsub h)) hcn
 
 /-- the publish-subscribe part of a shutdown history is a publish-subscribe history: every theorem of
 C01 / C02 / C08 applies to the survivors -/
-theorem reach_pubsub (cfg : Cfg) (ipc : Bool) (s : SWorld) (h : Reach cfg ipc s) : PubSub.Reach cfg s.w := by
-  sorry
+theorem reach_pubsub (cfg : Cfg) (ipc : Bool) (s : SWorld) (h : Reach cfg ipc s) : PubSub.Reach cfg s.w :=
+  C17P.reach_pubsub h
 
 /-- non-vacuity: a history in which the node handle and the service handle are dropped first and a
 publisher still loans and sends afterwards -/
 example : ∃ (cfg : Cfg) (s : SWorld) (P : Pub), cfg.Sane ∧ Reach cfg true s ∧ s.node = false ∧ s.svc = false ∧
-    getP s.w 0 = some P ∧ P.alive = true ∧ P.seq = 1 := by
-  sorry
+    getP s.w 0 = some P ∧ P.alive = true ∧ P.seq = 1 :=
+  C17P.nonvacuous
 
 end Iox2.Shutdown.C17
+
+#print axioms Iox2.Shutdown.C17.drop_never_panics
+#print axioms Iox2.Shutdown.C17.all_dropped_nothing_left_partial
+#print axioms Iox2.Shutdown.C17.node_dir_left_only_by_port
+#print axioms Iox2.Shutdown.C17.all_dropped_nothing_left_refuted
+#print axioms Iox2.Shutdown.C17.live_publisher_keeps_resources
+#print axioms Iox2.Shutdown.C17.live_subscriber_keeps_resources
+#print axioms Iox2.Shutdown.C17.connections_have_a_port
+#print axioms Iox2.Shutdown.C17.reach_pubsub
+#print axioms Iox2.Shutdown.C17P.nonvacuous
